@@ -228,8 +228,9 @@ pub fn run(ctx: &Ctx, rep: &mut Report) {
             let mut next = Vec::new();
             for h in &hists {
                 for c in 0..CHANGES.len() {
-                    // quick tier: at most one re-configuration step per history (thorough: any)
-                    if !ctx.tier.is_thorough() && c >= 5 && h.iter().any(|x| *x >= 5) {
+                    // at most one re-configuration / retarget step per history (thorough: two in histories of <= 3 steps)
+                    let specials = h.iter().filter(|x| **x >= 5).count();
+                    if c >= 5 && (specials >= 2 || (specials == 1 && !(ctx.tier.is_thorough() && h.len() < 3))) {
                         continue;
                     }
                     if c == 9 && !(set == 0 || set == 4) {
